@@ -265,6 +265,14 @@ SGal3TangentBase<_Derived>::ljac() const {
   const Scalar sin_t = sin(theta);
   const Scalar cos_t = cos(theta);
 
+  // c0 - c1 t^2 + c2 t^4 - c3 t^6 + c4 t^8
+  auto series = [&theta_sq](
+    const double c0, const double c1, const double c2, const double c3, const double c4
+  ) {
+    return Scalar(c0) - theta_sq * (Scalar(c1) - theta_sq * (Scalar(c2) -
+           theta_sq * (Scalar(c3) - theta_sq * Scalar(c4))));
+  };
+
   // Blocks D
   Jl.template topLeftCorner<3, 3>() = so3.ljac();
   Jl.template block<3, 3>(3, 3) = Jl.template topLeftCorner<3, 3>();
@@ -272,30 +280,24 @@ SGal3TangentBase<_Derived>::ljac() const {
 
   // Block E
   // Note - we use here a temporary block to hold E
-  Jl.template block<3, 3>(0, 6) = I33(Scalar(0.5));
-  if (theta_sq > Constants<Scalar>::eps) {
-    const Scalar A = (theta - sin_t) / theta_sq / theta;
-    const Scalar B = (
-      theta_sq + Scalar(2) * cos_t - Scalar(2)
-    ) / (Scalar(2) * theta_sq * theta_sq);
-
-    Jl.template block<3, 3>(0, 6).noalias() += A * W + B * WW;
-  }
+  fillE(Jl.template block<3, 3>(0, 6), so3);
 
   // Block E * nu
   Jl.template block<3, 1>(0, 9) = Jl.template block<3, 3>(0, 6) * lin2();
 
   // Block L
   Scalar cA, cB;
-  // small angle approx.
-  if (theta_cu > Constants<Scalar>::eps) {
+  // Series expansions for small angles,
+  // the closed forms suffer from cancellation.
+  const bool small_angle = theta_sq < Scalar(1e-2);
+  if (!small_angle) {
     cA = (sin_t - theta * cos_t) / theta_cu;
     cB = (
       theta_sq + Scalar(2) * (Scalar(1) - theta * sin_t - cos_t)
     ) / (Scalar(2) * theta_sq * theta_sq);
   } else {
-    cA = Scalar(1./3.)  - Scalar(1./30.) * theta_sq;
-    cB = Scalar(1./8.);
+    cA = series(1./3., 1./30., 1./840., 1./45360., 1./3991680.);
+    cB = series(1./8., 1./144., 1./5760., 1./403200., 1./43545600.);
   }
 
   // Block - L * t
@@ -317,7 +319,7 @@ SGal3TangentBase<_Derived>::ljac() const {
 
   // Block N2, part of N
   Scalar cC, cD, cE, cF;
-  if (theta_cu > Constants<Scalar>::eps) {
+  if (!small_angle) {
     cA = (Scalar(2) - theta * sin_t - Scalar(2) * cos_t) / theta_cu / theta;
     cB = (
       theta_cu + Scalar(6) * theta + Scalar(6) * theta * cos_t - Scalar(12) * sin_t
@@ -331,12 +333,12 @@ SGal3TangentBase<_Derived>::ljac() const {
     cE = (theta_sq + Scalar(2) * (cos_t - Scalar(1))) / (Scalar(2) * theta_cu * theta);
     cF = (theta_cu + Scalar(6) * (sin_t - theta)) / (Scalar(6) * theta_cu * theta_sq);
   } else {
-    cA = Scalar(1. / 12.);
-    cB = Scalar(1. / 24.);
-    cC = Scalar(1. / 10.);
-    cD = Scalar(1. / 240.);
-    cE = Scalar(1. / 24.);
-    cF = Scalar(1. / 120.);
+    cA = series(1./12., 1./180., 1./6720., 1./453600., 1./47900160.);
+    cB = series(1./40., 1./1008., 1./51840., 1./4435200., 1./566092800.);
+    cC = series(1./60., 1./560., 1./18144., 1./1140480., 1./115315200.);
+    cD = series(1./144., 1./2880., 1./134400., 1./10886400., 1./1341204480.);
+    cE = series(1./24., 1./720., 1./40320., 1./3628800., 1./479001600.);
+    cF = series(1./120., 1./5040., 1./362880., 1./39916800., 1./6227020800.);
   }
 
   // Block N = N1 - N2
@@ -438,17 +440,27 @@ void SGal3TangentBase<_Derived>::fillE(
 
   const Scalar theta_sq = so3.coeffs().squaredNorm();
 
+  using std::sqrt;
+  using std::cos;
+  using std::sin;
+
   E.noalias() = I(Scalar(0.5), Scalar(0.5), Scalar(0.5)).toDenseMatrix();
 
-  // small angle approx.
-  if (theta_sq < Constants<Scalar>::eps) {
-    return;
+  Scalar A, B;
+
+  // Series expansions for small angles,
+  // the closed forms suffer from cancellation.
+  if (theta_sq < Scalar(1e-2)) {
+    A = Scalar(1./6.)  - theta_sq * (Scalar(1./120.) - theta_sq * (Scalar(1./5040.)  -
+        theta_sq * (Scalar(1./362880.)  - theta_sq * Scalar(1./39916800.))));
+    B = Scalar(1./24.) - theta_sq * (Scalar(1./720.) - theta_sq * (Scalar(1./40320.) -
+        theta_sq * (Scalar(1./3628800.) - theta_sq * Scalar(1./479001600.))));
+  } else {
+    const Scalar theta = sqrt(theta_sq); // rotation angle
+
+    A = (theta - sin(theta)) / theta_sq / theta;
+    B = (theta_sq + Scalar(2) * cos(theta) - Scalar(2)) / (Scalar(2) * theta_sq * theta_sq);
   }
-
-  const Scalar theta = sqrt(theta_sq); // rotation angle
-
-  const Scalar A = (theta - sin(theta)) / theta_sq / theta;
-  const Scalar B = (theta_sq + Scalar(2) * cos(theta) - Scalar(2)) / (Scalar(2) * theta_sq * theta_sq);
 
   const typename SO3Tangent<Scalar>::LieAlg W = so3.hat();
 
